@@ -126,6 +126,17 @@ def default_account(chk, obs):
                 ia, ib = unwint(a), unwint(b)
                 if ia in ex or ib in ey:
                     seen.add(key + (ia, ib))
+        elif k in ('render', 'parse'):
+            cs = [unwint(c) for c in row.get('c', [])]
+            ev += len(cs)
+            lo, hi = _ext(row)
+            for c in cs:
+                if c in (lo, hi, -1):
+                    seen.add((k, row.get('kind'), row.get('route'), row.get('raw'), row['s'], row['w'], row['f'], c))
+        elif k in ('dtype', 'dtypeparse'):
+            ev += 1
+            if row['f'] < 0 or row['f'] > row['w'] or row.get('cplx') or row['w'] >= 64:
+                seen.add((k, row.get('route'), row.get('spelling'), row['s'], row['w'], row['f'], row.get('cplx')))
         elif k == 'infer':
             ev += len(row.get('v', []))
             z = row.get('z', {})
@@ -150,5 +161,5 @@ def default_account(chk, obs):
     chk.nontrivial += len(seen)
     chk.rule = ('cases = every (configuration, input/operand codes) of the TLC small world executed on the real code plus seeded '
                 'boundary-directed wide-format cases; non-trivial (measured from observations, distinct): stores whose write raised '
-                'overflow/underflow/inaccuracy; arithmetic/division cases with an operand at an extreme code of its format; inference cases whose inferred format is at the cap or holds an extreme code; other kinds: the '
+                'overflow/underflow/inaccuracy; arithmetic/division cases with an operand at an extreme code of its format; string cases at the most negative / maximum / all-ones code; dtype cases with negative or oversized n_frac, complex or >=64-bit words; inference cases whose inferred format is at the cap or holds an extreme code; other kinds: the '
                 'boundary tags the executor attached (row.nt); raised errors by (route, carrier, type)')
